@@ -38,12 +38,17 @@ for name in sorted(os.listdir(f"{V}/seeded")):
     json.dump(meta, open(f"{d}/meta.json", "w"), indent=1)
     rows.append((name, meta["property"], "", det))
 subprocess.run(["git", "-C", "/repo", "worktree", "remove", "--force", WT], capture_output=True)
+# MATRIX.md always lists every seeded change (from the meta.json files), not only the ones just run
 with open(f"{V}/seeded/MATRIX.md", "w") as f:
     f.write("| seeded change | property | check | result |\n|---|---|---|---|\n")
-    for name, prop, note, det in rows:
-        if note:
-            f.write(f"| {name} | {prop} | - | {note} |\n")
-        for t, v in det.items():
+    for name in sorted(os.listdir(f"{V}/seeded")):
+        mp = f"{V}/seeded/{name}/meta.json"
+        if not os.path.exists(mp):
+            continue
+        m = json.load(open(mp))
+        if m.get("retired"):
+            f.write(f"| {name} | {m['property']} | - | retired (see meta.json) |\n"); continue
+        for t, v in (m.get("checks_run") or {}).items():
             res = "MISSED" if v["exit"] == 0 else f"caught ({', '.join(v['kinds']) or 'violation'})"
-            f.write(f"| {name} | {prop} | {t} | {res} |\n")
-print(open(f"{V}/seeded/MATRIX.md").read())
+            f.write(f"| {name} | {m['property']} | {t} | {res} |\n")
+print(open(f"{V}/seeded/MATRIX.md").read()[-600:])
